@@ -201,7 +201,7 @@ func cmpStack(x *Exec, i int, m *MStack, k histKeys) string {
 		// settings without a getter: read from the raw dump when the field is there
 		d := w.dump(i)
 		if f := dumpField(d, "enc"); f != "" {
-			if want := encText(m.Enc); f != want {
+			if want := encText(m.Enc); normEnc(f) != normEnc(want) {
 				return fmt.Sprintf("encapsulation list is %s, expected %s", f, want)
 			}
 		}
@@ -401,4 +401,12 @@ func mismatchSite(op Op, why string) string {
 		return op.M + ":" + name
 	}
 	return name
+}
+
+// nil and empty encapsulation lists are the same thing
+func normEnc(s string) string {
+	if s == "[]nil" {
+		return "[]"
+	}
+	return s
 }
